@@ -61,6 +61,15 @@ def lattices(ctx, rng):
     return [(n, zoo.rebuild(l)) for n, l in out]
 
 
+def ref_metric(metric):
+    """the harness's own straight-line / minimum-image length for koala's two metrics (any other callable is used as it is)"""
+    if metric is pf.straight_line_length:
+        return lambda a, b: float(np.hypot(*(np.asarray(a, dtype=float) - np.asarray(b, dtype=float))))
+    if metric is pf.periodic_straight_line_length:
+        return lambda a, b: min(float(np.hypot(*(np.asarray(a, dtype=float) - np.asarray(b, dtype=float) + np.array([i, j])))) for i in (-1, 0, 1) for j in (-1, 0, 1))
+    return metric
+
+
 def check_path(ctx, l, kind, adj, pos, metric, a, b, early, nodes, edges, rep):
     nodes = [int(x) for x in nodes]; edges = [int(x) for x in edges]
     if nodes[0] != b or nodes[-1] != a:
@@ -79,8 +88,9 @@ def check_path(ctx, l, kind, adj, pos, metric, a, b, early, nodes, edges, rep):
     if a == b and (nodes != [a] or edges):
         rep("start == goal does not give the one-node path"); return False
     if not early:
-        cost = sum(metric(pos(nodes[i]), pos(nodes[i + 1])) for i in range(len(edges)))
-        best = dijkstra(adj, lambda p, q: metric(pos(p), pos(q)), a, b)
+        ref = ref_metric(metric)                                  # lengths are measured independently of koala's metric functions (the search itself gets koala's)
+        cost = sum(ref(pos(nodes[i]), pos(nodes[i + 1])) for i in range(len(edges)))
+        best = dijkstra(adj, lambda p, q: ref(pos(p), pos(q)), a, b)
         if best is None or cost > best + 1e-9 * max(1.0, best):
             rep(f"path cost {cost} is longer than the shortest {best} although early_stopping=False"); return False
     return True
@@ -149,7 +159,7 @@ def run(ctx):
                 pos = lambda i: l.vertices.positions[i]
                 finder = pf.path_between_vertices
             for mname, metric in (("euclid", pf.straight_line_length), ("periodic", pf.periodic_straight_line_length)):
-                if n <= 9 or (n <= 20 and mname == "euclid"):
+                if n <= 20 or (n <= 26 and mname == "periodic" and kind == "plaquette"):
                     pairs = [(a, b) for a in range(n) for b in range(n)]
                 else:
                     pairs = [tuple(int(x) for x in rng.integers(0, n, size=2)) for _ in range(10 if quick else 40)] + [(0, 0), (n - 1, n - 1), (0, n - 1)]
